@@ -37,6 +37,7 @@ func TestVerif(t *testing.T) {
 
 func init() {
 	registry["c15_archive"] = c15Archive
+	registry["c15_history"] = c15History
 	registry["c16_corpus"] = c16Corpus
 	registry["c16_threshold"] = c16Threshold
 	registry["c14_license_sched"] = c14LicenseSched
@@ -290,6 +291,127 @@ func c15Archive(c *vrep.Ctx) {
 	})
 }
 
+// c15History: archives are built and loaded one after another in ONE process, with file names
+// recurring under different contents: every load must behave as if it were the first (no state
+// carried from an earlier archive). Explicit enumeration of all load histories up to a depth.
+func c15History(c *vrep.Ctx) {
+	if !instrumented() {
+		panic("c15 needs the v1 instrumentation profile")
+	}
+	installReader()
+	depth := c.Pick(2, 3)
+	words := func(seed, n int) string {
+		vocab := []string{"software", "license", "terms", "permission", "granted", "copy", "modify", "distribute", "notice", "warranty", "liability", "holder", "conditions", "source", "binary", "redistribution"}
+		var w []string
+		for i := 0; i < n; i++ {
+			w = append(w, vocab[(i*seed+i/3+seed)%len(vocab)])
+		}
+		return strings.Join(w, " ")
+	}
+	texts := map[string][2]string{
+		"syn-a.txt": {words(3, 60), words(5, 64)},
+		"syn-b.txt": {words(7, 50), words(11, 58)},
+	}
+	type op struct {
+		files []string
+		ver   []int
+	}
+	var ops []op
+	for va := 0; va < 2; va++ {
+		ops = append(ops, op{[]string{"syn-a.txt"}, []int{va}})
+		ops = append(ops, op{[]string{"syn-b.txt"}, []int{va}})
+		for vb := 0; vb < 2; vb++ {
+			ops = append(ops, op{[]string{"syn-a.txt", "syn-b.txt"}, []int{va, vb}})
+		}
+	}
+	c.R.Rule = fmt.Sprintf("load histories: ALL sequences of 1..%d archive builds+loads in one process over 2 synthetic file names x 2 content versions each (%d operations: {a}, {b}, {a,b} x versions); after EVERY load the archive-loaded classifier must answer exact, lightly edited and embedded queries for the CURRENT contents like a classifier built directly from them; non-trivial = distinct (history, query) comparisons", depth, len(ops))
+	c.Bound("depth", depth)
+	c.Bound("operations", len(ops))
+	body := func(r *vx.Run) {
+		n := 1 + r.Choose(depth, "len")
+		var hist []int
+		for i := 0; i < n; i++ {
+			hist = append(hist, r.Choose(len(ops), "op"))
+		}
+		if r.Scout() {
+			return
+		}
+		msg := ""
+		nq := 0
+		var desc []string
+		for step, oi := range hist {
+			o := ops[oi]
+			cur := map[string]string{}
+			for i, f := range o.files {
+				synthetic[f] = texts[f][o.ver[i]]
+				cur[strings.TrimSuffix(f, ".txt")] = texts[f][o.ver[i]]
+			}
+			desc = append(desc, fmt.Sprintf("%v@%v", o.files, o.ver))
+			func() {
+				defer func() {
+					if x := recover(); x != nil {
+						msg = fmt.Sprint("panic: ", x)
+					}
+				}()
+				var buf bytes.Buffer
+				if err := serializer.ArchiveLicenses(o.files, &buf); err != nil {
+					msg = err.Error()
+					return
+				}
+				l, err := lc.New(lc.DefaultConfidenceThreshold, lc.ArchiveBytes(buf.Bytes()))
+				if err != nil {
+					msg = "archive does not load: " + err.Error()
+					return
+				}
+				in := inner(l)
+				ref := sc.New(lc.DefaultConfidenceThreshold)
+				for name, t := range cur {
+					ref.AddValue(name, normalize(t))
+				}
+				for _, t := range cur {
+					w := strings.Fields(t)
+					edited := append([]string(nil), w...)
+					for i := range edited {
+						if i%11 == 5 {
+							edited[i] = "zqxv"
+						}
+					}
+					for _, q := range []string{t, strings.Join(edited, " "), "intro words about rights " + strings.Join(edited[3:], " ") + " trailing version"} {
+						nq++
+						n1 := normalize(q)
+						var a, b sc.Matches
+						vsync.RunDefault(func() { a = in.MultipleMatch(n1) })
+						vsync.RunDefault(func() { b = ref.MultipleMatch(normalize(n1)) })
+						if fmtMatches(a) != fmtMatches(b) && msg == "" {
+							msg = fmt.Sprintf("after load %d of the history: MultipleMatch differs: archive-loaded [%s], directly built [%s]", step+1, fmtMatches(a), fmtMatches(b))
+						}
+					}
+				}
+			}()
+			if msg != "" {
+				break
+			}
+		}
+		r.Note = map[string]interface{}{"hist": strings.Join(desc, " ; "), "msg": msg, "nq": nq}
+	}
+	e := c.Explorer(0)
+	e.SplitDepth = 2
+	c.Run(e, body, func(r *vx.Run) {
+		h := r.Note["hist"].(string)
+		for i := 0; i < r.Note["nq"].(int); i++ {
+			c.Nontrivial(fmt.Sprintf("%s|%d", h, i))
+		}
+		c.R.Transitions += int64(len(r.Choices) - 1)
+		if len(r.Choices) > 2 {
+			c.Sample(h)
+		}
+		if m := r.Note["msg"].(string); m != "" {
+			c.Violate("c15_history:"+strings.ReplaceAll(h, " ", ""), h+": "+m, r, m)
+		}
+	})
+	c.R.States = c.R.Evaluations
+}
+
 // tie: both names achieve the same confidence on their own (ties are undefined by the doc comment).
 func tie(texts map[string]string, q string, a, b *sc.Match) bool {
 	conf := func(name string) float64 {
@@ -347,6 +469,7 @@ var variants = []variant{
 	{"identity", func(s string) string { return s }},
 	{"upper", strings.ToUpper},
 	{"slashes", perLine("// ")},
+	{"one-line", func(s string) string { return strings.Join(strings.Fields(s), " ") }},
 	{"lower", strings.ToLower},
 	{"reflow", func(s string) string { return strings.Join(strings.Fields(s), "  \n ") }},
 	{"hash", perLine("# ")},
@@ -358,9 +481,9 @@ func c16Corpus(c *vrep.Ctx) {
 		panic("c16 needs the v1 instrumentation profile")
 	}
 	files := licenseFiles()
-	nv := c.Pick(3, len(variants))
+	nv := c.Pick(4, len(variants))
 	l := fullLicense()
-	c.R.Rule = fmt.Sprintf("every one of the %d shipped license files x %d presentation variants (identity, upper, // decoration; thorough adds lower, whitespace re-flow, # and * decoration) against the License classifier built from the full archive: NearestMatch must return the file's canonical name (file name minus .txt and .header) with confidence >= %v; finite and complete", len(files), nv, lc.DefaultConfidenceThreshold)
+	c.R.Rule = fmt.Sprintf("every one of the %d shipped license files x %d presentation variants (identity, upper, // decoration, whole text re-flowed onto one line; thorough adds lower, one word per line, # and * decoration) against the License classifier built from the full archive: NearestMatch must return the file's canonical name (file name minus .txt and .header) with confidence >= %v; finite and complete", len(files), nv, lc.DefaultConfidenceThreshold)
 	c.Bound("files", len(files))
 	c.Bound("variants", nv)
 	// v1 compares character by character against every known text of similar length; with the
